@@ -301,7 +301,7 @@ def check_scripts(repo_src, rnd):
         T = oracle.Table()
         for name, (p, a, ty) in sc.get('table', {}).items(): T.infix[name] = (p, a, ty)
         for st, ex, r in zip(sc['steps'], sc['expect'], res):
-            if st[0] == 'reg_infix' and st[1] not in T.infix: T.infix[st[1]] = (int(st[2].get('p', 100)), st[2].get('assoc', 'L'), 'CALC')
+            if st[0] == 'reg_infix' and st[1] not in sc.get('table', {}): T.infix[st[1]] = (int(st[2].get('p', 100)), st[2].get('assoc', 'L'), st[2].get('ty', 'CALC'))     # the latest registration wins
             if st[0] == 'reg_postfix': T.postfix.add(st[1])
             if st[0] == 'reg_prefix': T.prefix.add(st[1])
             if ex is None: continue
